@@ -85,6 +85,18 @@ CHECKS["C07"] = {
     "text": "For real finalized plans (chain with unequal task counts, diamond, independent branches, multi-output op, implicit rechunk; optimize on/off) and every schedule within the bound (which pending futures complete at each wake-up, in which order they are seen, which generation-mate is polled next, clock increments; compute_arrays_in_parallel on/off, batch_size None/1/2, backups on/off): every task is submitted only after a successful completion of every task of every operation producing its inputs and of every create-arrays task, and an operation's stream ends only when all its tasks completed. SingleThreadedExecutor.execute_dag: same, for every subset of operations marked computed.",
     "note": "asyncio.wait/Future/time/aiostream replaced by stubs/sched.py (validated against a real event loop at check start); schedules with more than the stated number of 'still running' observations and task failures (C08) are outside; a task is taken to read its inputs between submit and complete.",
 }
+CHECKS["C04"] = {
+    "engine": "sx",
+    "technique": "bounded symbolic execution (z3) of real finalization/validation/execute entry and real optimizers on real plans with symbolic per-operation memory",
+    "text": "For real plans (chain, diamond, two computed inputs, repeated argument, reduction chain, multi-output, mixed levels) whose per-operation projected memory, result-chunk memory and allowed memory are solver variables: execute() raises ValueError iff some operation of the final plan has projected > allowed (== admitted, +1 refused), and on the refusal path the executor, every callback and every array create/open were never called; fused operations (multiple-input optimizer with default and symbolic fan-in limits, legacy map-fusion optimizer, fuse-all) report at least the projected memory of every operation they replaced; the default optimizers never turn a plan whose operations all fit into one that does not; peak_projected_mem equals the reference recurrence.",
+    "note": "memory values 0..40 (linear comparisons); ops' projected memory assumed >= result-chunk memory; side effects inside third-party executors outside.",
+}
+CHECKS["C09"] = {
+    "engine": "sx",
+    "technique": "bounded symbolic execution (z3) of the real resume logic on real finalized plans with symbolic store state per produced array",
+    "text": "For real finalized plans (fused/unfused, multi-output, reduction chains) and EVERY store state of every produced array (absent, completeness attribute missing, zero-dimensional, nchunks_initialized anywhere in [0, nchunks] - an over-approximation of every crash point at task and chunk-write granularity): an operation is skipped iff all its outputs are complete and not 0-d, create-arrays is never skipped, executed operations come in dependency order (both traversals agree), every executed operation reads only complete arrays or arrays whose producer runs earlier, a store that cannot report completeness is refused with NotImplementedError before the executor is entered (or never trusted), without resume nothing is skipped; array creation is open-or-create, never truncating.",
+    "note": "store-state stub is the contract of the property; what Zarr reports for a half-written key and equality of values (C06) are outside.",
+}
 for p in PENDING:
     if p not in CHECKS:
         NOT_APPLICABLE[p] = "check not built yet in this revision (planned, see DESIGN.md §5)"
